@@ -200,9 +200,9 @@ func init() {
 		workers := []int{2, 3}
 		bound := 2
 		maxITs := []int{1, 2}
-		cats := []string{"K1", "K2", "K4"}
+		cats := []string{"K1", "K2", "K4", "KZ"}
 		if r.Tier == "thorough" {
-			workers, bound, maxITs, cats = []int{2, 3, 5}, 3, []int{1, 2, 3}, []string{"K1", "K2", "K4"}
+			workers, bound, maxITs, cats = []int{2, 3, 5}, 3, []int{1, 2, 3}, []string{"K1", "K2", "K4", "KZ"}
 		}
 		var bl [][]int
 		for _, b := range batches(len(shapes), bsz) {
